@@ -445,6 +445,49 @@ var c11Injectors = []c11Injector{
 		}
 		return n > 0
 	}},
+	// what is wrong stands on a node that a short module copies out of a grouping far down in a long library module
+	// (and out of a grouping of a long submodule of its own): the error is reported, with whatever location
+	{"fault-on-a-node-copied-from-a-long-library-into-a-short-module", false, func(r *core.Rng, ms *yang.ModSet) bool {
+		lib := yang.S("module", "long-lib", yang.S("namespace", "urn:verif:long-lib"), yang.S("prefix", "ll"))
+		if r.Bool() {
+			lib = yang.S("submodule", "long-sub", yang.S("belongs-to", "short-user", yang.S("prefix", "su")))
+		}
+		for i := 0; i < 40+r.Intn(40); i++ {
+			lib.Add(yang.S("typedef", fmt.Sprintf("filler-%d", i), yang.S("type", "string", yang.S("length", "1..64")), yang.S("description", "one of many definitions that stand in front of the grouping")))
+		}
+		var g, use *yang.Stmt
+		use = yang.S("uses", "ll:far-down")
+		switch r.Intn(8) {
+		case 0:
+			g = yang.S("grouping", "far-down", yang.S("leaf", "gl", yang.S("type", "no-such-type")))
+		case 1:
+			g = yang.S("grouping", "far-down", yang.S("leaf", "gl", yang.S("type", "string"), yang.S("if-feature", "no-such-feature")))
+		case 2:
+			g = yang.S("grouping", "far-down", yang.S("leaf", "gl", yang.S("type", "identityref", yang.S("base", "no-such-identity"))))
+		case 3:
+			g = yang.S("grouping", "far-down", yang.S("leaf", "gl", yang.S("type", "string"), yang.S("default", "d")))
+			use.Add(yang.S("refine", "gl", yang.S("mandatory", "true")))
+		case 4:
+			g = yang.S("grouping", "far-down", yang.S("container", "gc", yang.S("config", "false"), yang.S("leaf", "gl", yang.S("type", "string"), yang.S("config", "true"))))
+		case 5:
+			g = yang.S("grouping", "far-down", yang.S("container", "gc", yang.S("status", "obsolete"), yang.S("leaf", "gl", yang.S("type", "string"), yang.S("status", "current"))))
+		case 6:
+			g = yang.S("grouping", "far-down", yang.S("leaf", "gl", yang.S("type", "uint8"), yang.S("default", "300")))
+		default:
+			g = yang.S("grouping", "far-down", yang.S("list", "gli", yang.S("key", "nope"), yang.S("leaf", "k", yang.S("type", "string"))))
+		}
+		lib.Add(g)
+		user := yang.S("module", "short-user", yang.S("namespace", "urn:verif:short-user"), yang.S("prefix", "su"))
+		if lib.Kw == "submodule" {
+			user.Add(yang.S("include", "long-sub"))
+			use.Arg = "far-down"
+		} else {
+			user.Add(yang.S("import", "long-lib", yang.S("prefix", "ll")))
+		}
+		user.Add(yang.S("container", "u", use))
+		ms.Mods = append(ms.Mods, lib, user)
+		return true
+	}},
 	{"unknown-prefix-in-type", false, func(r *core.Rng, ms *yang.ModSet) bool {
 		addBody(modA(ms), yang.S("leaf", "dl", yang.S("type", "nopfx:t")))
 		return true
